@@ -24,7 +24,7 @@
 (***************************************************************************)
 EXTENDS Grammar, Nest
 
-CONSTANTS PKinds, MaxEdits, NCmtCls, NCppForms, NGarb, DirectiveCls, InsSet, MinEdits, DumpMod, NRepl, RichOnly, NeedStruct
+CONSTANTS PKinds, MaxEdits, NCmtCls, NCppForms, NGarb, DirectiveCls, InsSet, MinEdits, DumpMod, NRepl, RichOnly, NeedStruct, NBrkPlaces, SplitUnits
 
 VARIABLES ed, pd
 pvars == <<out, stack, done, needs08, nlab, nname, nunit, rich, ed, pd>>
@@ -40,6 +40,8 @@ Splittable(i) ==
     [] k = "doconc" -> v \in SplitOpen_doconc [] k = "selcase" -> v \in SplitOpen_selcase [] k = "seltype" -> v \in SplitOpen_seltype
     [] k = "where" -> v \in SplitOpen_where [] k = "forall" -> v \in SplitOpen_forall [] k = "assoc" -> v \in SplitOpen_assoc
     [] OTHER -> FALSE
+\* with SplitUnits the header of a subroutine / function may be continued as well (brk edits only)
+SplittableB(i) == Splittable(i) \/ (SplitUnits /\ ((out[i].k = "sub" /\ out[i].v \in SplitUnit_sub) \/ (out[i].k = "fun" /\ out[i].v \in SplitUnit_fun)))
 IsSimple(i) == out[i].k = "s" /\ out[i].l = 0
 \* a simple statement that may be hidden behind a conditional-compilation sentinel: unlabelled, or with a label no DO refers to
 IsHideable(i) == out[i].k = "s" /\ (out[i].l = 0 \/ ~\E j \in 1..N : out[j].k = "dol" /\ out[j].l = out[i].l)
@@ -88,6 +90,7 @@ AddGarb ==
   /\ "garb" \in PKinds /\ ~\E j \in 1..Len(ed) : ed[j].t = "garb"
   /\ \E pos \in Ch(1..N), g \in 1..NGarb, extra \in 0..2 :
        /\ ~\E j \in 1..Len(ed) : ed[j].t = "cmt" /\ ed[j].pos = pos /\ ed[j].a \in {2, 3, 4, 5}
+       /\ (g >= 9 => extra = 0)          \* garbage 9, 10: a line that starts with '#' cannot be continued
        /\ ed' = Append(ed, E("garb", pos, g, extra))
 
 AddInc ==
@@ -120,7 +123,9 @@ AddSent ==
 RichPos(S) == IF RichOnly /\ (\E i \in S : out[i].v > 1) THEN {i \in S : out[i].v > 1} ELSE S
 AddLayout ==
   \/ /\ "brk" \in PKinds
-     /\ \E pos \in Ch(RichPos({i \in 1..N : Splittable(i)})), a \in 1..7, b \in 0..6 :
+     \* a: 1..7 the token boundary in eighths of the statement text; 8, 9 inside its prefix (behind the label / the construct
+     \* name, behind the whole prefix; a statement without prefix: as 1)
+     /\ \E pos \in Ch(RichPos({i \in 1..N : SplittableB(i)})), a \in 1..NBrkPlaces, b \in 0..6 :
           /\ ~InJoin(pos) /\ ~HasEd("brk", pos)
           /\ ~\E j \in 1..Len(ed) : ed[j].pos = pos /\ ed[j].t = "cmt" /\ ed[j].a \in {2, 3}
           /\ ed' = Append(ed, E("brk", pos, a, b))
